@@ -1,0 +1,22 @@
+//go:build verif
+
+package capnp
+
+import "sync/atomic"
+
+var verifYieldFunc atomic.Value // func(string)
+
+// VerifSetYield installs f to be called at the library's marked scheduling
+// points (between two critical sections of one operation); nil removes it.
+func VerifSetYield(f func(point string)) {
+	if f == nil {
+		f = func(string) {}
+	}
+	verifYieldFunc.Store(f)
+}
+
+func verifYield(point string) {
+	if f, ok := verifYieldFunc.Load().(func(string)); ok {
+		f(point)
+	}
+}
